@@ -219,6 +219,7 @@ class SimNet:
     def __init__(self, world: "World", faults=None, connects=None):
         self.world = world
         self.devices = {}
+        self.hosts = {}
         self.faults = list(faults or [])
         self.connects = list(connects or [])
         self.n_tx = 0
@@ -245,6 +246,14 @@ class SimNet:
 
     def add_device(self, host, port, device):
         self.devices[(host, port)] = device
+
+    def add_host(self, name, address):
+        """Name resolution: a transport opened to `name` is connected to `address`; received datagrams carry the
+        numeric address, as the socket layer reports it."""
+        self.hosts[name] = address
+
+    def resolve(self, host):
+        return self.hosts.get(host, host)
 
     def open_transports(self, owner=None):
         return [t for t in self.transports if t.is_open() and (owner is None or t._protocol is owner)]
@@ -346,7 +355,7 @@ class SimNet:
             self.world.log("connect", "udp", j, "sockerr", c["errno"])
             raise oserror(c["errno"])
         protocol = factory()
-        tr = SimUdpTransport(loop, self, protocol, tuple(remote))
+        tr = SimUdpTransport(loop, self, protocol, (self.resolve(remote[0]), remote[1]))
         waiter = loop.create_future()
         loop.call_soon(protocol.connection_made, tr)
         loop.call_soon(_set_unless_cancelled, waiter)
@@ -378,7 +387,7 @@ class SimNet:
         if outcome["k"] == "unreach":
             raise oserror(outcome.get("errno", _errno.EHOSTUNREACH))
         protocol = factory()
-        tr = SimTcpTransport(loop, self, protocol, (host, port))
+        tr = SimTcpTransport(loop, self, protocol, (self.resolve(host), port))
         waiter = loop.create_future()
         loop.call_soon(protocol.connection_made, tr)
         loop.call_soon(_set_unless_cancelled, waiter)
@@ -436,7 +445,10 @@ class SimNet:
         elif k == "mut":
             dl.append((d, mutate(ans, fault["ops"])))
         elif k == "exc":
-            dl.append((d, dev.exception_frame(data, tr.kind, fault["code"])))
+            frame = dev.exception_frame(data, tr.kind, fault["code"])
+            if frame and fault.get("ops"):
+                frame = mutate(frame, fault["ops"])   # e.g. an exception frame damaged in flight
+            dl.append((d, frame))
         elif k == "foreign":
             other = dev.foreign_answer(data, tr.kind, fault["req"], tx_index=i)
             if other is not None:
@@ -508,6 +520,8 @@ class SimNet:
             return ans[:part["s"]]
         if w == "suffix":
             return ans[part["s"]:]
+        if w == "slice":
+            return ans[part["a"]:part["b"]]
         if w == "raw":
             return bytes.fromhex(part["hex"])
         raise HarnessError(f"multi part {w}")
